@@ -10,7 +10,7 @@
 From Coq Require Import String List Arith Bool ZArith.
 Import ListNotations.
 From NP Require Import Base Values Arrow Abs Kernels Logical ExtArray Codec Steps
-  Proofs_Views Proofs_Codec Proofs_Steps Proofs_Extras.
+  Proofs_Views Proofs_Codec Proofs_Norm Proofs_Fields Proofs_Steps Proofs_Extras.
 From NP Require Import Props.C03.
 
 Theorem C01_step_keeps_invariant : forall p o p', inv_b p = true -> op_ok p o = true ->
@@ -42,6 +42,46 @@ Print Assumptions C01_storage_schema_is_dtype.
 Theorem C01_constructor_sound : forall p p', arrow_ok_b p = true -> m_init p true = Ok p' -> wf_b p' = true.
 Proof. exact init_sound. Qed.
 Print Assumptions C01_constructor_sound.
+
+(* NEW with the repair "a missing row holds nothing": the constructor establishes the layout part of the invariant by
+   itself (well-formed, missing rows hold nothing, at least one chunk), for ANY accepted input, also one whose missing
+   rows hide elements, without changing the logical column; with distinct field names that is the whole invariant *)
+Theorem C01_constructor_normalises : forall p q, arrow_ok_b p = true -> m_init p true = Ok q ->
+  wf_b q = true /\ norm_missing_all_b q = true /\ abs q = abs p /\ chunks q <> [].
+Proof. exact init_normalises. Qed.
+Print Assumptions C01_constructor_normalises.
+
+Theorem C01_constructor_keeps_column : forall p q, arrow_ok_b p = true -> m_init p true = Ok q ->
+  abs q = abs p /\ chunks q <> [].
+Proof. exact init_abs. Qed.
+Print Assumptions C01_constructor_keeps_column.
+
+Theorem C01_constructor_invariant : forall p q, arrow_ok_b p = true -> nodupb (map fst (ctype p)) = true ->
+  m_init p true = Ok q -> inv_b q = true.
+Proof. exact init_inv. Qed.
+Print Assumptions C01_constructor_invariant.
+
+(* NEW with the repair: set_list_field normalises too, whatever the column hides under its missing rows and whatever the
+   offered array offers for them.  v is any valid Arrow list array (wf_larr_b: what pyarrow guarantees, the library does
+   not check it).  If moreover every present row is offered a list (not a null) and the field names are distinct, the
+   result satisfies the whole invariant. *)
+Theorem C01_set_list_field_normalises : forall p nm ty v keep q,
+  wf_b p = true -> wf_larr_b (la_len v) v = true ->
+  m_set_list_field p nm ty v keep = Ok q ->
+  norm_missing_all_b q = true /\ chunks q <> [].
+Proof. exact set_list_field_normalises. Qed.
+Print Assumptions C01_set_list_field_normalises.
+
+Theorem C01_set_list_field_invariant : forall p nm ty v keep q,
+  wf_b p = true -> nodupb (map fst (ctype p)) = true -> wf_larr_b (la_len v) v = true ->
+  forallb2 (fun s l : bool => implb s l) (concat (map svalid (chunks p))) (lvalid v) = true ->
+  m_set_list_field p nm ty v keep = Ok q ->
+  inv_b q = true.
+Proof.
+  intros p nm ty v keep q Hwfp Hnd Hwf Ho H.
+  apply (set_list_field_sound p nm ty v keep q Hwfp Hwf Ho H). exact Hnd.
+Qed.
+Print Assumptions C01_set_list_field_invariant.
 
 Theorem C01_ragged_refused : forall p, arrow_ok_b p = true -> forallb rect_b (chunks p) = false ->
   m_init p true = Err.
